@@ -82,9 +82,11 @@ def unsetRemoteHalt (s : Eng) : Eng :=
 def deliver (s : Eng) (self : Nat) (f : LTXFile) : Eng × Bool :=
   let s := if s.hasDB then s else { s with hasDB := true, dbFile := some ByteArray.empty }
   if f.nodeID = self ∧ self ≠ 0 ∧ s.posTxid ≥ f.maxTxid then (s, true) else
-  -- a file arriving while the node still holds a remote halt lock: the lock is stale; recover under
-  -- the write lock the frame handler holds (ce31c5d) and forget it
-  let s := if s.remoteHalt then unsetRemoteHalt s else s
+  -- a file beyond the position of the remote halt lock the node still holds: the primary moved on
+  -- without it, the lock is stale; recover under the write lock the frame handler holds (ce31c5d)
+  -- and forget it.  Files up to the lock's position were committed before the grant: they are
+  -- what the acquisition waits for and leave the lock alone.
+  let s := if s.remoteHalt ∧ f.maxTxid > s.remoteHaltTxid then unsetRemoteHalt s else s
   match receiveLTX s f with
   | .ok s' => (s', true)
   | .error (s', _) => (s', false)
